@@ -19,6 +19,20 @@ CHECKS = {
    note=NOTE_COMMON+" Numerics (smoothing, restriction, prolongation, residual values) are stubs whose contracts are C02-C04; Krylov recurrence residual == true residual (exact arithmetic); SciPy 1.18 call-back/exit structure; for sslsolver runs tol*||b|| >= 1e-30 (below: known finding).",
    technique="symbolic execution of the real solver control flow with z3 Float64 path conditions (decision-prefix exploration), environment stubs for numerics and SciPy Krylov processes, replay through the public API",
    ref="DESIGN.md §6 C01"),
+ 'C11': dict(
+   text="Bookkeeping core, bounded: the real process_map (all four branches), _multiprocessing.solve (dict and file hand-over), "
+        "Simulation._compute/_bcompute/jvec/_dict_get/_load/_data_or_file and io.save/io.load run on a shadow Simulation with symbolic "
+        "data/model/vectors under a NONDETERMINISTIC MODEL of the process pool (symx/cfmodel.py: pickled = deep-copied arguments and "
+        "results, arbitrary completion order from symbolic completion times, Executor.map in submission order, as_completed in "
+        "completion order; tqdm's process_map == list(ex.map)). max_workers is a symbolic integer 1..16 and every permutation of "
+        "the <= 4 tasks of the pool run under study is an explored path; emg3d.solve is one uninterpreted function. z3 decides on "
+        "every path that synthetic data, every field, info slot, misfit, gradient, J v and a repeated compute equal the sequential "
+        "in-memory run, in memory and file-based, with and without tqdm; plus an absolute slot oracle (each source-frequency slot "
+        "holds Solve of its own source/frequency/residual). Bit-identity of real floating-point solves across OS processes is "
+        "outside the claim.",
+   note=NOTE_COMMON+" The verdict is relative to the process-pool contract in symx/cfmodel.py (concurrent.futures documentation) and to the exact-solve idealisation; HDF5 back end is an in-memory store (C17 checks real files); worker-local module state is not modelled. Counterexamples are replayed with a real ProcessPoolExecutor, the completion order forced by task run times.",
+   technique="differential symbolic execution of the real dispatch/bookkeeping code under a nondeterministic scheduler model (completion order and worker count are solver variables; decision-prefix exploration of all permutations) with an uninterpreted solver; SMT validity of result equality per path",
+   ref="DESIGN.md §6 C11"),
  'C14': dict(
    text="Symbolic proof for all real values: the six Map* classes, VolumeModel and Model's validation are executed on z3 terms with "
         "exp/ln/log10/10**x as uninterpreted functions constrained by their inverse-pair axioms; z3 decides backward(forward(s)) = s, "
@@ -178,7 +192,6 @@ CHECKS = {
 
 NA = {
  'C06': "convergence factors of full cycles on 8^3..64^3 grids are floating-point magnitudes; no symbolic encoding within reach of z3/cvc5 (DESIGN §7)",
- 'C11': "OS scheduling/process pools/files; under Executor.map's contract the code never observes completion order, nothing for a solver to branch on (DESIGN §7)",
  'C16': "float power-law search (alpha**n, ceil, log): symbolic exponentiation; reals-for-floats unsound at the ceil/< decision points (DESIGN §7)",
  'C18': "finite list of documented keys x whole-program runs through configparser/regex/file I/O; not a solver problem (DESIGN §7)",
  'C19': "equality with empymod's compiled Hankel-transform numerics and FD gradients; outside symbolic execution (DESIGN §7)",
